@@ -17,8 +17,7 @@ def boolean_only(e):
 
 def run(ctx):
     if ctx.replay:
-        scen = [json.load(open(ctx.replay))["trace"]["scenario"]]
-        scen[0].pop("tid", None)
+        scen = ctx.replay_scenarios()
     else:
         base = c05.scenarios(ctx, stride_q=1, nsim_q=150)
         scen = [{"expr": s["expr"]} for s in base if boolean_only(s["expr"])]
